@@ -70,6 +70,8 @@ FLAVOURS = {
     'empty': make_classes({'__len__': lambda self: 0}),
     # every instance equals everything and all hash alike (value-style components with equal fields)
     'all-equal': make_classes({'__eq__': lambda self, other: True, '__hash__': lambda self: 7}),
+    # container-like components: iterable (and empty), eg. an inventory or a vector
+    'iterable': make_classes({'__iter__': lambda self: iter(())}),
 }
 CLASSES, CREATE_SETS = FLAVOURS['plain']
 Hd, Hs, N, Ha, Ho = CLASSES
@@ -398,6 +400,7 @@ TIERS = {
               ('life', dict(L=2, flavour='empty'), dict(required=['unusual-empty', 'replace', 'remove', 'probe'])),
               ('life', dict(L=3, flavour='all-equal', ids=(1,), classes=2, create_sets=2, auto=False),
                dict(required=['unusual-all-equal', 'replace', 'remove', 'probe', 'release', 'attach-disabled'])),
+              ('life', dict(L=2, flavour='iterable'), dict(required=['unusual-iterable', 'replace', 'remove', 'probe', 'attach-disabled'])),
               ('reenter', dict(L=2), dict(required=['armed-callback-was-postponed']))],
     'thorough': [('life', dict(L=4, ids=(1,), classes=5, create_sets=7, auto=True)),
                  ('life', dict(L=2, build=True, ids=(1, 2), create_sets=8, auto=False)),
@@ -405,6 +408,7 @@ TIERS = {
                  ('life', dict(L=5, ids=(1,), classes=2, create_sets=2, auto=False, reuse=False)),
                  ('life', dict(L=3, flavour='falsy')), ('life', dict(L=3, flavour='empty')),
                  ('life', dict(L=4, flavour='all-equal', ids=(1,), classes=3, create_sets=3, auto=False)),
+                 ('life', dict(L=3, flavour='iterable')),
                  ('reenter', dict(L=3), dict(required=['armed-callback-was-postponed']))],
 }
 BUDGET_S = {'quick': 150, 'thorough': 1500}
@@ -430,7 +434,7 @@ ASSUMPTIONS = [
     'forever, dispatch is enabled after this operation") contradicts postponement, so that combination is outside the claim',
     'probe events are only dispatched while dispatching is enabled (deferred delivery of ordinary events is C04)',
     'an instance is attached to at most one entity at a time; callbacks do not raise (C04/C05)',
-    'component instances may be falsy (__bool__ False), empty (__len__ 0) or all equal and hash-equal: flavours falsy / empty / all-equal',
+    'component instances may be falsy (__bool__ False), empty (__len__ 0), iterable (__iter__) or all equal and hash-equal: flavours falsy / empty / iterable / all-equal',
     're-populating an id emptied while its deferred-deletion mark was pending is outside the claim (as in C01)',
     'harness reenter: exactly one armed lifecycle callback per path performs one action the first time it runs; order of '
     'callbacks inside one operation is free, so delivered callbacks are compared as multisets whenever dispatching is enabled '
